@@ -191,3 +191,810 @@ Proof.
     + left. reflexivity.
   - left. reflexivity.
 Qed.
+
+(* ------------------------------------------------------------------ relational forms *)
+Lemma json_rt_list_rel l l' :
+  Forall2 (fun v v' => json_rt v = Some v') l l' -> json_rt (PList l) = Some (PList l').
+Proof.
+  intros H. unfold json_rt. cbn. fold enc_list.
+  assert (exists js, enc_list l = Some js /\ map dec js = l') as [js [E1 E2]].
+  { induction H as [|v v' r r' Hv _ IH]; cbn; [exists []; auto|].
+    unfold json_rt in Hv. destruct (enc v) as [j|]; cbn in Hv; [|discriminate]. injection Hv as Hv.
+    destruct IH as [js [E1 E2]]. rewrite E1. exists (j :: js). cbn. now rewrite Hv, E2. }
+  rewrite E1. cbn. now rewrite E2.
+Qed.
+
+Lemma json_rt_dict_rel d (d2 : list (string * pv)) :
+  Forall2 (fun p q => fst q = key_str (fst p) /\ json_rt (snd p) = Some (snd q)) d d2 ->
+  is_tensor_marker (lookup "type" d2) = false ->
+  json_rt (PDict d) = Some (PDict (map (fun q => (KStr (fst q), snd q)) d2)).
+Proof.
+  intros H Hm. unfold json_rt. cbn. fold enc_dict.
+  assert (exists ds, enc_dict d = Some ds /\ map (fun p => match p with (k, x) => (k, dec x) end) ds = d2)
+    as [ds [E1 E2]].
+  { clear Hm. induction H as [|[k v] [k' v'] r r' [Hk Hv] _ IH]; cbn; [exists []; auto|].
+    cbn in Hk, Hv. unfold json_rt in Hv. destruct (enc v) as [j|]; cbn in Hv; [|discriminate].
+    injection Hv as Hv. destruct IH as [ds [E1 E2]]. rewrite E1.
+    exists ((key_str k, j) :: ds). cbn. now rewrite Hv, E2, Hk. }
+  rewrite E1. cbn. rewrite E2. unfold hook. now rewrite Hm.
+Qed.
+
+(* ------------------------------------------------------------------ external (torch) state *)
+Lemma zstr_not_type z : String.eqb "type" (zstr z) = false.
+Proof.
+  unfold zstr. destruct z as [|p|p]; cbn; try reflexivity.
+  - unfold NilZero.string_of_uint. destruct (Pos.to_uint p); reflexivity.
+Qed.
+
+Lemma lookup_type_int_keys (d : list (key * pv)) (f : pv -> pv) :
+  all_int_keys d = true ->
+  lookup "type" (map (fun p => (key_str (fst p), f (snd p))) d) = None.
+Proof.
+  induction d as [|[k x] r IH]; cbn -[String.eqb zstr]; intros H; [reflexivity|].
+  apply andb_true_iff in H as [Hk Hr]. destruct k as [z|s]; [|discriminate].
+  cbn -[String.eqb zstr]. rewrite zstr_not_type. now apply IH.
+Qed.
+
+(* an integer-keyed dictionary of plain values: keys come back as strings; int(...) undoes it *)
+Lemma json_rt_int_dict d :
+  all_int_keys d = true -> forallb (fun q => plainb (snd q)) d = true ->
+  json_rt (PDict d) = Some (PDict (map (fun p => (KStr (key_str (fst p)), norm (snd p))) d)).
+Proof.
+  intros Hk Hp.
+  rewrite (json_rt_dict_rel d (map (fun p => (key_str (fst p), norm (snd p))) d)).
+  - now rewrite map_map.
+  - clear Hk. induction d as [|[k x] r IH]; cbn; constructor.
+    + cbn. split; [reflexivity|]. cbn in Hp. apply andb_true_iff in Hp as [H1 _]. now apply json_rt_plain_l.
+    + apply IH. cbn in Hp. now apply andb_true_iff in Hp as [_ H2].
+  - now rewrite lookup_type_int_keys.
+Qed.
+
+Lemma int_keys_back d :
+  all_int_keys d = true ->
+  int_keys (PDict (map (fun p => (KStr (key_str (fst p)), norm (snd p))) d)) = Some (norm (PDict d)).
+Proof.
+  intros Hk. cbn -[zstr]. 
+  assert (mapM (fun p : key * pv => match p with
+                        | (KStr s, x) => option_map (fun z => (KInt z, x)) (parse_int s)
+                        | (KInt _, _) => None end)
+               (map (fun p => (KStr (key_str (fst p)), norm (snd p))) d)
+          = Some (map (fun p => match p with (k, x) => (k, norm x) end) d)) as ->; [|reflexivity].
+  induction d as [|[k x] r IH]; cbn -[zstr]; [reflexivity|].
+  cbn in Hk. apply andb_true_iff in Hk as [H1 H2]. destruct k as [z|s]; [|discriminate].
+  cbn -[zstr]. rewrite parse_int_zstr. cbn -[zstr]. now rewrite (IH H2).
+Qed.
+
+(* image of one entry of an external state dictionary under json *)
+Definition ext_img (paths : list string) (p : key * pv) : string * pv :=
+  (key_str (fst p),
+   if mem (key_str (fst p)) paths
+   then match snd p with
+        | PDict d' => PDict (map (fun q => (KStr (key_str (fst q)), norm (snd q))) d')
+        | x => norm x
+        end
+   else norm (snd p)).
+
+Lemma ext_marker paths d :
+  forallb (fun p => match p with
+                    | (KStr k, x) => if mem k paths
+                                     then match x with
+                                          | PDict d' => all_int_keys d' && forallb (fun q => plainb (snd q)) d'
+                                          | _ => false end
+                                     else plainb x
+                    | (KInt _, _) => false end) d = true ->
+  tensor_like d = false ->
+  is_tensor_marker (lookup "type" (map (ext_img paths) d)) = false.
+Proof.
+  induction d as [|[k x] r IH]; cbn -[String.eqb]; intros Hp Ht; [reflexivity|].
+  apply andb_true_iff in Hp as [Hpx Hpr]. apply orb_false_iff in Ht as [Ht1 Ht2].
+  destruct k as [z|s]; [discriminate|]. cbn -[String.eqb] in *.
+  destruct (String.eqb "type" s) eqn:Es; [|now apply IH].
+  cbn -[String.eqb] in Ht1.
+  destruct (mem s paths).
+  - destruct x; try discriminate. reflexivity.
+  - rewrite norm_marker. exact Ht1.
+Qed.
+
+(* THE statement about torch.optim state: written to JSON and read back, the integer keys have
+   become strings; re-keying exactly the integer-keyed entries gives the state back (tuples as lists) *)
+Lemma rekey_roundtrip_l paths fixes v :
+  (forall k, mem k fixes = mem k paths) ->
+  ext_okb paths v = true ->
+  exists v', json_rt v = Some v' /\ rekey fixes v' = Some (norm v).
+Proof.
+  intros Hf Hok. destruct v; try discriminate. cbn in Hok.
+  apply andb_true_iff in Hok as [Hp Ht]. apply negb_true_iff in Ht.
+  exists (PDict (map (fun q => (KStr (fst q), snd q)) (map (ext_img paths) d))). split.
+  - apply json_rt_dict_rel; [|now apply ext_marker].
+    clear Ht. induction d as [|[k x] r IH]; cbn; constructor.
+    + cbn in Hp. apply andb_true_iff in Hp as [H1 _]. destruct k as [z|s]; [discriminate|].
+      unfold ext_img. cbn. split; [reflexivity|].
+      destruct (mem s paths).
+      * destruct x; try discriminate. apply andb_true_iff in H1 as [Ha Hb]. now apply json_rt_int_dict.
+      * now apply json_rt_plain_l.
+    + apply IH. cbn in Hp. now apply andb_true_iff in Hp as [_ H2].
+  - cbn.
+    assert (mapM (fun p : key * pv => match p with
+                  | (KStr k, x) => if mem k fixes
+                                   then match x with
+                                        | PDict _ => option_map (fun y => (KStr k, y)) (int_keys x)
+                                        | _ => Some (KStr k, x) end
+                                   else Some (KStr k, x)
+                  | (KInt z, x) => Some (KInt z, x) end)
+              (map (fun q => (KStr (fst q), snd q)) (map (ext_img paths) d))
+            = Some (map (fun p => match p with (k, x) => (k, norm x) end) d)) as ->; [|reflexivity].
+    clear Ht. induction d as [|[k x] r IH]; [reflexivity|].
+    cbn in Hp. apply andb_true_iff in Hp as [H1 H2]. destruct k as [z|s]; [discriminate|].
+    cbn [map mapM].
+    assert (ext_img paths (KStr s, x) =
+      (s, if mem s paths then match x with
+                              | PDict d' => PDict (map (fun q => (KStr (key_str (fst q)), norm (snd q))) d')
+                              | _ => norm x end
+          else norm x)) as -> by (unfold ext_img; cbn [fst snd key_str]; destruct x; reflexivity).
+    cbn [fst snd]. rewrite Hf.
+    destruct (mem s paths) eqn:Em.
+    + destruct x as [| | | | | | |dd| | |]; try discriminate. apply andb_true_iff in H1 as [Ha Hb].
+      rewrite (int_keys_back dd Ha). cbn [option_map]. now rewrite (IH H2).
+    + rewrite (IH H2). reflexivity.
+Qed.
+
+(* ------------------------------------------------------------------ association lists *)
+Lemma lookup_set_same {A} k (v : A) d : lookup k (set_field k v d) = Some v.
+Proof.
+  induction d as [|[k' v'] r IH]; cbn -[String.eqb].
+  - now rewrite String.eqb_refl.
+  - destruct (String.eqb k k') eqn:E; cbn -[String.eqb]; [now rewrite String.eqb_refl | now rewrite E].
+Qed.
+
+Lemma lookup_set_other {A} k k' (v : A) d : k <> k' -> lookup k' (set_field k v d) = lookup k' d.
+Proof.
+  intros Hn. induction d as [|[k2 v2] r IH]; cbn -[String.eqb].
+  - destruct (String.eqb k' k) eqn:E; [apply String.eqb_eq in E; congruence | reflexivity].
+  - destruct (String.eqb k k2) eqn:E; cbn -[String.eqb].
+    + apply String.eqb_eq in E. subst k2.
+      destruct (String.eqb k' k) eqn:E2; [apply String.eqb_eq in E2; congruence | reflexivity].
+    + destruct (String.eqb k' k2); [reflexivity | exact IH].
+Qed.
+
+Lemma keys_set_present {A} k (v : A) d : In k (map fst d) -> map fst (set_field k v d) = map fst d.
+Proof.
+  induction d as [|[k' v'] r IH]; cbn -[String.eqb]; intros H; [contradiction|].
+  destruct (String.eqb k k') eqn:E; cbn.
+  - apply String.eqb_eq in E. now subst.
+  - f_equal. apply IH. destruct H as [H|H]; [subst; now rewrite String.eqb_refl in E | exact H].
+Qed.
+
+Lemma lookup_in_keys {A} k (d : list (string * A)) v : lookup k d = Some v -> In k (map fst d).
+Proof.
+  induction d as [|[k' v'] r IH]; cbn -[String.eqb]; [discriminate|].
+  destruct (String.eqb k k') eqn:E; intros H.
+  - apply String.eqb_eq in E. now left.
+  - right. now apply IH.
+Qed.
+
+Lemma keys_in_lookup {A} k (d : list (string * A)) : In k (map fst d) -> exists v, lookup k d = Some v.
+Proof.
+  induction d as [|[k' v'] r IH]; cbn -[String.eqb]; [contradiction|].
+  destruct (String.eqb k k') eqn:E; intros H; [eauto|].
+  destruct H as [H|H]; [subst; now rewrite String.eqb_refl in E | now apply IH].
+Qed.
+
+Lemma lookup_map_snd {A B} (f : A -> B) k (d : list (string * A)) :
+  lookup k (map (fun p => (fst p, f (snd p))) d) = option_map f (lookup k d).
+Proof.
+  induction d as [|[k' v'] r IH]; cbn -[String.eqb]; [reflexivity|].
+  destruct (String.eqb k k'); [reflexivity | exact IH].
+Qed.
+
+Lemma assoc_ext {A} (a b : list (string * A)) :
+  map fst a = map fst b -> NoDup (map fst a) ->
+  (forall k, In k (map fst a) -> lookup k a = lookup k b) -> a = b.
+Proof.
+  revert b. induction a as [|[k v] r IH]; intros [|[k' v'] r'] Hk Hn Hl; cbn in *; try discriminate; [reflexivity|].
+  injection Hk as -> Hk. inversion Hn as [|? ? Hnot Hn']; subst.
+  pose proof (Hl k' (or_introl eq_refl)) as H0. rewrite String.eqb_refl in H0. injection H0 as ->.
+  f_equal. apply IH; auto.
+  intros k Hin. specialize (Hl k (or_intror Hin)).
+  destruct (String.eqb k k') eqn:E; [|exact Hl].
+  apply String.eqb_eq in E. subst. contradiction.
+Qed.
+
+Lemma mem_In s l : mem s l = true <-> In s l.
+Proof.
+  unfold mem. rewrite existsb_exists. split.
+  - intros [x [H1 H2]]. apply String.eqb_eq in H2. now subst.
+  - intros H. exists s. split; [exact H | apply String.eqb_refl].
+Qed.
+
+Lemma nodupb_NoDup l : nodupb l = true -> NoDup l.
+Proof.
+  induction l as [|x r IH]; cbn; intros H; constructor.
+  - apply andb_true_iff in H as [H _]. apply negb_true_iff in H. intro Hin. apply mem_In in Hin. congruence.
+  - apply IH. now apply andb_true_iff in H as [_ H].
+Qed.
+
+Lemma same_set_mem a b : same_set a b = true -> forall k, mem k b = mem k a.
+Proof.
+  unfold same_set, subset. intros H k. apply andb_true_iff in H as [H1 H2].
+  rewrite forallb_forall in H1, H2.
+  destruct (mem k a) eqn:Ea.
+  - apply mem_In in Ea. now apply H1.
+  - destruct (mem k b) eqn:Eb; [|reflexivity]. apply mem_In in Eb. apply H2 in Eb. congruence.
+Qed.
+
+Lemma lookupk_kstr (E : list (string * pv)) k :
+  lookupk k (map (fun q => (KStr (fst q), snd q)) E) = lookup k E.
+Proof.
+  induction E as [|[k' v'] r IH]; cbn -[String.eqb]; [reflexivity|].
+  destruct (String.eqb k k'); [reflexivity | exact IH].
+Qed.
+
+Lemma find_w_In k ws w : find_w k ws = Some w -> In w ws /\ wkey w = k.
+Proof.
+  unfold find_w. intros H. apply find_some in H as [H1 H2]. apply String.eqb_eq in H2. auto.
+Qed.
+
+Lemma find_w_nodup ws w : NoDup (map wkey ws) -> In w ws -> find_w (wkey w) ws = Some w.
+Proof.
+  unfold find_w. induction ws as [|w' r IH]; cbn -[String.eqb]; intros Hn Hin; [contradiction|].
+  inversion Hn as [|? ? Hnot Hn']; subst.
+  destruct Hin as [->|Hin]; [now rewrite String.eqb_refl|].
+  destruct (String.eqb (wkey w') (wkey w)) eqn:E; [|now apply IH].
+  apply String.eqb_eq in E. exfalso. apply Hnot. rewrite E. now apply in_map.
+Qed.
+
+Lemma find_r_Some k rs : (exists r, In r rs /\ rkey r = k) -> exists r, find_r k rs = Some r.
+Proof.
+  unfold find_r. intros [r [Hin Hk]].
+  destruct (find (fun r0 => String.eqb (rkey r0) k) rs) eqn:E; [eauto|].
+  exfalso. apply (find_none _ _ E) in Hin. subst. now rewrite String.eqb_refl in Hin.
+Qed.
+
+Lemma find_r_In k rs r : find_r k rs = Some r -> In r rs /\ rkey r = k.
+Proof.
+  unfold find_r. intros H. apply find_some in H as [H1 H2]. apply String.eqb_eq in H2. auto.
+Qed.
+
+Lemma Forall2_weaken {A B} (P Q : A -> B -> Prop) l l' :
+  (forall a b, P a b -> Q a b) -> Forall2 P l l' -> Forall2 Q l l'.
+Proof. intros H. induction 1; constructor; auto. Qed.
+
+(* what an attribute must look like for the (write mode, read mode) pair it goes through;
+   s0 = attributes of the freshly constructed object; CR / CRid = "this child object survives the
+   round trip" (CRid: as a member of a list, found by its id) *)
+Definition value_ok (CR CRid : pv -> pv -> Prop) (s0 : state) (w : wentry) (r : rentry) (v : pv) : Prop :=
+  match wm w, rm r with
+  | WDirect, RDirect => plainb v = true
+  | WSeq, RDeque => plainb v = true
+  | WDirect, RParam => exists id dt nn vals dt0 nn0 vals0,
+      v = PParam id dt nn vals /\ plainb vals = true
+      /\ lookup (wfield w) s0 = Some (PParam id dt0 nn0 vals0)
+  | WTolist, RTensor src => exists dt vals,
+      v = PTensor dt false vals /\ plainb vals = true /\ dtype_of (lookup src s0) = Some dt
+  | WTolistEach, RTensorEach src => exists dt l,
+      v = PList (map (PTensor dt false) l) /\ forallb plainb l = true /\ dtype_of (lookup src s0) = Some dt
+  | WChild, RChild => exists c0, lookup (wfield w) s0 = Some c0 /\ CR c0 v
+  | WChildren, RChildren => exists cs0 cs,
+      lookup (wfield w) s0 = Some (PList cs0) /\ v = PList cs /\ Forall2 CRid cs0 cs
+      /\ NoDup (map obj_id cs0)
+  | WExternal k, RExternal _ => ext_okb (ext_int_key_paths k) v = true
+  | _, _ => False
+  end.
+
+Lemma value_ok_mono (CR CRid CR' CRid' : pv -> pv -> Prop) s0 w r v :
+  (forall a b, CR a b -> CR' a b) -> (forall a b, CRid a b -> CRid' a b) ->
+  value_ok CR CRid s0 w r v -> value_ok CR' CRid' s0 w r v.
+Proof.
+  intros H1 H2. unfold value_ok. destruct (wm w), (rm r); auto.
+  - intros [c0 [Ha Hb]]. exists c0. auto.
+  - intros [cs0 [cs [Ha [Hb [Hc Hd]]]]]. exists cs0, cs. repeat split; auto.
+    eapply Forall2_weaken; [|exact Hc]. auto.
+Qed.
+
+(* ------------------------------------------------------------------ one object: restore (save s) = s *)
+Section FlatRT.
+  Variable csave : pv -> option pv.
+  Variable crestore : pv -> pv -> option pv.
+
+  (* a child object c (fresh counterpart c0 built by the restart) survives the round trip *)
+  Definition child_rt (c0 c : pv) : Prop :=
+    exists d d', csave c = Some d /\ json_rt d = Some d' /\ crestore c0 d' = Some (norm c).
+  (* children held in a list are matched by the "id" their dictionary carries *)
+  Definition child_rt_id (c0 c : pv) : Prop :=
+    exists d d', csave c = Some d /\ json_rt d = Some d' /\ crestore c0 d' = Some (norm c)
+                 /\ dict_id d' = obj_id c0.
+
+  Lemma mapM_tvals dt l : mapM tvals (map (PTensor dt false) l) = Some l.
+  Proof. induction l as [|x r IH]; cbn; [reflexivity | now rewrite IH]. Qed.
+
+  Lemma find_by_id_nodup xs x :
+    NoDup (map dict_id xs) -> In x xs -> find_by_id (dict_id x) xs = Some x.
+  Proof.
+    induction xs as [|y r IH]; cbn; intros Hn Hin; [contradiction|].
+    inversion Hn as [|? ? Hnot Hn']; subst.
+    destruct Hin as [->|Hin].
+    - destruct (dict_id x); cbn; [now rewrite String.eqb_refl | reflexivity].
+    - destruct (opt_str_eqb (dict_id y) (dict_id x)) eqn:E; [|now apply IH].
+      exfalso. apply Hnot.
+      assert (dict_id y = dict_id x) as ->.
+      { destruct (dict_id y), (dict_id x); cbn in E; try discriminate; [apply String.eqb_eq in E; now subst | reflexivity]. }
+      now apply in_map.
+  Qed.
+
+  Lemma children_rt cs0 cs :
+    Forall2 child_rt_id cs0 cs -> NoDup (map obj_id cs0) ->
+    exists ds ds', mapM csave cs = Some ds /\ Forall2 (fun d d' => json_rt d = Some d') ds ds'
+      /\ mapM (fun c => match find_by_id (obj_id c) ds' with
+                        | Some st => crestore c st
+                        | None => Some c end) cs0 = Some (map norm cs).
+  Proof.
+    intros HF Hn.
+    assert (exists ds ds', mapM csave cs = Some ds /\ Forall2 (fun d d' => json_rt d = Some d') ds ds'
+              /\ map dict_id ds' = map obj_id cs0
+              /\ Forall2 (fun c0 c => exists d', In d' ds' /\ dict_id d' = obj_id c0 /\ crestore c0 d' = Some (norm c)) cs0 cs)
+      as [ds [ds' [H1 [H2 [H3 H4]]]]].
+    { clear Hn. induction HF as [|c0 c r0 r [d [d' [Ha [Hb [Hc Hd]]]]] _ IH].
+      - exists [], []. cbn. repeat split; constructor.
+      - destruct IH as [ds [ds' [H1 [H2 [H3 H4]]]]].
+        exists (d :: ds), (d' :: ds'). cbn. rewrite Ha, H1. repeat split.
+        + now constructor.
+        + now rewrite Hd, H3.
+        + constructor.
+          * exists d'. cbn. auto.
+          * eapply Forall2_weaken; [|exact H4]. cbn. intros a b [x [Hx1 Hx2]]. exists x. auto. }
+    exists ds, ds'. repeat split; auto.
+    rewrite <- H3 in Hn.
+    clear H1 H2 H3 HF. induction H4 as [|c0 c r0 r [d' [Hin [Hid Hc]]] _ IH]; cbn; [reflexivity|].
+    rewrite <- Hid. rewrite (find_by_id_nodup ds' d' Hn Hin). rewrite Hc. now rewrite IH.
+  Qed.
+
+  (* one key: what is written for it, what json returns, what the matching read makes of it *)
+  Lemma entry_rt s0 w r v :
+    compat_mode w r = true -> rfield r = wfield w -> value_ok child_rt child_rt_id s0 w r v ->
+    exists e e', wenc csave (wm w) v = Some e /\ json_rt e = Some e'
+                 /\ rdec crestore s0 r e' = Some (norm v).
+  Proof.
+    unfold compat_mode, value_ok, rdec. intros Hc Hf Hv.
+    destruct (wm w) eqn:Ew, (rm r) eqn:Er; try discriminate; try contradiction; cbn [wenc].
+    - (* direct *) exists v, (norm v). repeat split; auto using json_rt_plain_l.
+    - (* Parameter object *)
+      destruct Hv as [id [dt [nn [vals [dt0 [nn0 [vals0 [-> [Hp H0]]]]]]]]].
+      pose proof (json_rt_plain_l vals Hp) as Hj. unfold json_rt in Hj.
+      destruct (enc vals) as [j|] eqn:Ej; cbn in Hj; [|discriminate]. injection Hj as Hj.
+      exists (PParam id dt nn vals).
+      exists (PDict [(KStr "id", PStr id); (KStr "type", PStr penc_type_name); (KStr "tensor", norm vals);
+                     (KStr "dtype", PStr dt); (KStr "nn", PBool nn)]).
+      split; [reflexivity|]. split.
+      + unfold json_rt. cbn [enc]. rewrite Ej. cbn [option_map dec map]. rewrite Hj. reflexivity.
+      + rewrite Hf, H0. reflexivity.
+    - (* list(deque) *) exists v, (norm v). repeat split; auto using json_rt_plain_l.
+    - (* tolist / tensor *)
+      destruct Hv as [dt [vals [-> [Hp H0]]]]. exists vals, (norm vals).
+      split; [reflexivity|]. split; [now apply json_rt_plain_l|]. now rewrite H0.
+    - (* list of tensors *)
+      destruct Hv as [dt [l [-> [Hp H0]]]]. exists (PList l), (PList (map norm l)).
+      split; [now rewrite mapM_tvals|]. split.
+      + change (PList (map norm l)) with (norm (PList l)). now apply json_rt_plain_l.
+      + rewrite H0. cbn. now rewrite !map_map.
+    - (* child *)
+      destruct Hv as [c0 [H0 [d [d' [Ha [Hb Hc']]]]]]. exists d, d'. rewrite Hf, H0. auto.
+    - (* children *)
+      destruct Hv as [cs0 [cs [H0 [-> [HF Hn]]]]].
+      destruct (children_rt cs0 cs HF Hn) as [ds [ds' [H1 [H2 H3]]]].
+      exists (PList ds), (PList ds'). rewrite H1. split; [reflexivity|]. split.
+      + now apply json_rt_list_rel.
+      + rewrite Hf, H0, H3. reflexivity.
+    - (* external torch state *)
+      apply andb_true_iff in Hc as [Hk Hs]. apply String.eqb_eq in Hk. subst kind0.
+      destruct (rekey_roundtrip_l (ext_int_key_paths kind) (rfix r) v (same_set_mem _ _ Hs) Hv) as [v' [H1 H2]].
+      exists v, v'. auto.
+  Qed.
+
+  Variable t : ctable.
+  Variables s0 s : state.
+  Hypothesis Hdeleg : deleg t = None.
+  Hypothesis Hkeys : keys_ok t = true.
+  (* the attributes in play are exactly those the table writes, on both objects *)
+  Hypothesis wf_fields : map fst s = map wfield (writes t).
+  Hypothesis wf_fields0 : map fst s0 = map fst s.
+  (* same configuration: guards evaluate alike on the saved and on the fresh object *)
+  Hypothesis wf_guards : forall w, In w (writes t) -> guard_holds (wguard w) s0 = guard_holds (wguard w) s.
+  (* every attribute that is read back has the shape its modes expect *)
+  Hypothesis wf_values : forall w r v, In w (writes t) -> In r (reads t) -> rkey r = wkey w ->
+    guard_holds (rguard r) s0 = true -> lookup (wfield w) s = Some v -> value_ok child_rt child_rt_id s0 w r v.
+  (* what is written without being read back (the identity; an empty list of children) is
+     serialisable and the fresh object already holds it *)
+  Hypothesis wf_fixed : forall w v, In w (writes t) -> lookup (wfield w) s = Some v ->
+    (forall r, In r (reads t) -> rkey r = wkey w -> guard_holds (rguard r) s0 = false) ->
+    lookup (wfield w) s0 = Some (norm v)
+    /\ (guard_holds (wguard w) s = true -> exists e e', wenc csave (wm w) v = Some e /\ json_rt e = Some e').
+
+  Let Hstruct : struct_ok t = true.
+  Proof. unfold keys_ok in Hkeys. rewrite Hdeleg in Hkeys. now apply andb_true_iff in Hkeys as [H _]; apply andb_true_iff in H as [H _]. Qed.
+  Let Hreads : forall r, In r (reads t) -> read_ok t r = true.
+  Proof. unfold keys_ok in Hkeys. rewrite Hdeleg in Hkeys. apply andb_true_iff in Hkeys as [H _]. apply andb_true_iff in H as [_ H]. now rewrite forallb_forall in H. Qed.
+  Let Hwrites : forall w, In w (writes t) -> write_ok t w = true.
+  Proof. unfold keys_ok in Hkeys. rewrite Hdeleg in Hkeys. apply andb_true_iff in Hkeys as [_ H]. now rewrite forallb_forall in H. Qed.
+  Let Hnd_wkey : NoDup (map wkey (writes t)).
+  Proof. unfold struct_ok in Hstruct. repeat (apply andb_true_iff in Hstruct as [Hstruct ?]). now apply nodupb_NoDup. Qed.
+  Let Hnd_wfield : NoDup (map wfield (writes t)).
+  Proof. unfold struct_ok in Hstruct. repeat (apply andb_true_iff in Hstruct as [Hstruct ?]). now apply nodupb_NoDup. Qed.
+  Let Hnd_rfield : NoDup (map rfield (reads t)).
+  Proof. unfold struct_ok in Hstruct. repeat (apply andb_true_iff in Hstruct as [Hstruct ?]). now apply nodupb_NoDup. Qed.
+  Let Hnd_rkey : NoDup (map rkey (reads t)).
+  Proof. unfold struct_ok in Hstruct. repeat (apply andb_true_iff in Hstruct as [Hstruct ?]). now apply nodupb_NoDup. Qed.
+  Let Hnotype : ~ In "type" (map wkey (writes t)).
+  Proof. unfold struct_ok in Hstruct. apply andb_true_iff in Hstruct as [_ H]. apply negb_true_iff in H. intro Hin. apply mem_In in Hin. congruence. Qed.
+
+  (* facts about a read entry *)
+  Lemma read_facts r : In r (reads t) ->
+    exists w, In w (writes t) /\ wkey w = rkey r /\ wfield w = rfield r /\ compat_mode w r = true
+              /\ guard_compat w r = true.
+  Proof.
+    intros Hin. pose proof (Hreads r Hin) as H. unfold read_ok in H.
+    destruct (find_w (rkey r) (writes t)) as [w|] eqn:E; [|discriminate].
+    apply find_w_In in E as [E1 E2]. apply andb_true_iff in H as [H H3]. apply andb_true_iff in H as [H1 H2].
+    apply String.eqb_eq in H1. exists w. auto.
+  Qed.
+
+  Lemma opt_str_eqb_eq a b : opt_str_eqb a b = true -> a = b.
+  Proof. destruct a, b; cbn; try discriminate; auto. intros H. apply String.eqb_eq in H. now subst. Qed.
+
+  (* an active read has an active write *)
+  Lemma active_read_write r w : In r (reads t) -> In w (writes t) -> guard_compat w r = true ->
+    guard_holds (rguard r) s0 = true -> guard_holds (wguard w) s = true.
+  Proof.
+    intros Hr Hw Hg Ha. unfold guard_compat in Hg. apply orb_true_iff in Hg as [Hg|Hg].
+    - apply opt_str_eqb_eq in Hg. rewrite <- (wf_guards w Hw), Hg. exact Ha.
+    - apply andb_true_iff in Hg as [Hg _]. apply opt_str_eqb_eq in Hg. now rewrite Hg.
+  Qed.
+
+  Lemma field_value w : In w (writes t) -> exists v, lookup (wfield w) s = Some v.
+  Proof. intros Hw. apply keys_in_lookup. rewrite wf_fields. now apply in_map. Qed.
+
+  (* --- step A/B: the dictionary written and what json returns --- *)
+  Definition entry_rel (w : wentry) (q : string * pv) : Prop :=
+    fst q = wkey w /\ exists v e, lookup (wfield w) s = Some v /\ wenc csave (wm w) v = Some e
+      /\ json_rt e = Some (snd q)
+      /\ (forall r, In r (reads t) -> rkey r = wkey w -> guard_holds (rguard r) s0 = true ->
+                    rdec crestore s0 r (snd q) = Some (norm v)).
+
+  Lemma entries_exist l : incl l (writes t) -> (forall w, In w l -> guard_holds (wguard w) s = true) ->
+    exists E', Forall2 entry_rel l E'.
+  Proof.
+    induction l as [|w l IH]; intros Hi Ha; [exists []; constructor|].
+    destruct IH as [E' HE]; [intros x Hx; apply Hi; now right | intros x Hx; apply Ha; now right|].
+    assert (Hw : In w (writes t)) by (apply Hi; now left).
+    destruct (field_value w Hw) as [v Hv].
+    (* is there an active reader of this key? *)
+    destruct (existsb (fun r => String.eqb (rkey r) (wkey w) && guard_holds (rguard r) s0) (reads t)) eqn:Ex.
+    - apply existsb_exists in Ex as [r [Hr Hx]]. apply andb_true_iff in Hx as [Hk Hg]. apply String.eqb_eq in Hk.
+      destruct (read_facts r Hr) as [w' [Hw' [Hk' [Hf' [Hc' Hg']]]]].
+      assert (w' = w) as ->.
+      { pose proof (find_w_nodup (writes t) w' Hnd_wkey Hw') as F1.
+        pose proof (find_w_nodup (writes t) w Hnd_wkey Hw) as F2. rewrite Hk', Hk in F1. congruence. }
+      destruct (entry_rt s0 w r v Hc' (eq_sym Hf') (wf_values w r v Hw Hr Hk Hg Hv)) as [e [e' [H1 [H2 H3]]]].
+      exists ((wkey w, e') :: E'). constructor; [|exact HE].
+      split; [reflexivity|]. exists v, e. repeat split; auto. cbn [snd].
+      intros r2 Hr2 Hk2 Hg2.
+      assert (r2 = r) as ->; [|exact H3].
+      { clear - Hnd_rkey Hr Hr2 Hk Hk2. rewrite <- Hk in Hk2. revert Hr Hr2 Hk2.
+        induction (reads t) as [|x rs IHr]; cbn; [contradiction|]. inversion Hnd_rkey as [|? ? Hnot Hn']; subst.
+        intros [->|H1] [->|H2] Hk2; auto.
+        - exfalso. apply Hnot. rewrite <- Hk2. now apply in_map.
+        - exfalso. apply Hnot. rewrite Hk2. now apply in_map. }
+    - assert (Hno : forall r, In r (reads t) -> rkey r = wkey w -> guard_holds (rguard r) s0 = false).
+      { intros r Hr Hk. destruct (guard_holds (rguard r) s0) eqn:Eg; [|reflexivity].
+        exfalso. assert (existsb (fun r => String.eqb (rkey r) (wkey w) && guard_holds (rguard r) s0) (reads t) = true); [|congruence].
+        apply existsb_exists. exists r. split; [exact Hr|]. rewrite Hk, String.eqb_refl. exact Eg. }
+      destruct (wf_fixed w v Hw Hv Hno) as [_ He]. destruct (He (Ha w (or_introl eq_refl))) as [e [e' [H1 H2]]].
+      exists ((wkey w, e') :: E'). constructor; [|exact HE].
+      split; [reflexivity|]. exists v, e. repeat split; auto.
+      intros r Hr Hk Hg. rewrite (Hno r Hr Hk) in Hg. discriminate.
+  Qed.
+
+  Lemma entries_state_dict l E' : Forall2 entry_rel l E' ->
+    exists E, mapM (write_entry csave s) l = Some E
+              /\ Forall2 (fun p q => fst q = key_str (fst p) /\ json_rt (snd p) = Some (snd q)) E E'.
+  Proof.
+    induction 1 as [|w q l E' [Hk [v [e [Hv [He [Hj _]]]]]] _ [E [IH1 IH2]]]; [exists []; split; [reflexivity|constructor]|].
+    exists ((KStr (wkey w), e) :: E). cbn. unfold write_entry at 1. rewrite Hv, He. cbn. rewrite IH1.
+    split; [reflexivity|]. constructor; [|exact IH2]. cbn. auto.
+  Qed.
+
+  Lemma entries_keys l E' : Forall2 entry_rel l E' -> map fst E' = map wkey l.
+  Proof. induction 1 as [|w q l E' [Hk _] _ IH]; cbn; [reflexivity | now rewrite Hk, IH]. Qed.
+
+  Lemma lookup_entry l E' w : Forall2 entry_rel l E' -> NoDup (map wkey l) -> In w l ->
+    exists q, lookup (wkey w) E' = Some (snd q) /\ entry_rel w q.
+  Proof.
+    induction 1 as [|w' q l E' Hq _ IH]; cbn -[String.eqb]; intros Hn Hin; [contradiction|].
+    inversion Hn as [|? ? Hnot Hn']; subst. destruct q as [k x]. destruct Hin as [->|Hin].
+    - exists (k, x). destruct Hq as [Hk Hrest]. cbn in Hk. subst k. rewrite String.eqb_refl. split; [reflexivity|]. split; auto.
+    - destruct (IH Hn' Hin) as [q [H1 H2]]. exists q. split; [|exact H2].
+      destruct Hq as [Hk _]. cbn in Hk. subst k.
+      destruct (String.eqb (wkey w) (wkey w')) eqn:E; [|exact H1].
+      apply String.eqb_eq in E. exfalso. apply Hnot. rewrite <- E. now apply in_map.
+  Qed.
+
+  (* --- step C: load_state_dict, read by read --- *)
+  Definition target (r : rentry) : pv :=
+    match lookup (rfield r) s with Some v => norm v | None => PNone end.
+  Definition apply_read (a : state) (r : rentry) : state :=
+    if guard_holds (rguard r) s0 then set_field (rfield r) (target r) a else a.
+
+  Lemma write_in_active w : In w (writes t) -> guard_holds (wguard w) s = true -> In w (active_writes t s).
+  Proof. intros H1 H2. unfold active_writes. apply filter_In. auto. Qed.
+
+  Lemma NoDup_map_filter {A B} (f : A -> B) (p : A -> bool) l : NoDup (map f l) -> NoDup (map f (filter p l)).
+  Proof.
+    induction l as [|x r IH]; cbn; intros H; [constructor|]. inversion H as [|? ? Hnot Hn]; subst.
+    destruct (p x); cbn; [constructor|]; auto.
+    intro Hin. apply Hnot. apply in_map_iff in Hin as [y [Hy1 Hy2]]. apply filter_In in Hy2 as [Hy2 _].
+    rewrite <- Hy1. now apply in_map.
+  Qed.
+
+  Lemma read_steps E' : Forall2 entry_rel (active_writes t s) E' ->
+    forall rs, incl rs (reads t) -> forall acc,
+    fold_left (read_step crestore s0 (map (fun q => (KStr (fst q), snd q)) E')) rs (Some acc)
+    = Some (fold_left apply_read rs acc).
+  Proof.
+    intros HE. induction rs as [|r rs IH]; intros Hi acc; [reflexivity|].
+    assert (Hr : In r (reads t)) by (apply Hi; now left).
+    cbn [fold_left].
+    replace (read_step crestore s0 (map (fun q => (KStr (fst q), snd q)) E') (Some acc) r)
+      with (if guard_holds (rguard r) s0
+            then match lookupk (rkey r) (map (fun q => (KStr (fst q), snd q)) E') with
+                 | None => None
+                 | Some x => option_map (fun v => set_field (rfield r) v acc) (rdec crestore s0 r x)
+                 end
+            else Some acc) by reflexivity.
+    replace (apply_read acc r) with (if guard_holds (rguard r) s0 then set_field (rfield r) (target r) acc else acc)
+      by reflexivity.
+    destruct (guard_holds (rguard r) s0) eqn:Eg.
+    - destruct (read_facts r Hr) as [w [Hw [Hk [Hf [Hc Hg]]]]].
+      pose proof (active_read_write r w Hr Hw Hg Eg) as Hact.
+      destruct (lookup_entry (active_writes t s) E' w HE) as [q [Hq1 [_ [v [e [Hv [_ [_ Hq2]]]]]]]].
+      { unfold active_writes. now apply NoDup_map_filter. }
+      { now apply write_in_active. }
+      rewrite lookupk_kstr, <- Hk, Hq1. rewrite (Hq2 r Hr (eq_sym Hk) Eg). cbn [option_map].
+      unfold target. rewrite <- Hf, Hv. apply IH. intros x Hx. apply Hi. now right.
+    - apply IH. intros x Hx. apply Hi. now right.
+  Qed.
+
+  (* --- step D: the attributes after loading --- *)
+  Lemma fold_keys rs : (forall r, In r rs -> In (rfield r) (map fst s0)) ->
+    forall acc, map fst acc = map fst s0 -> map fst (fold_left apply_read rs acc) = map fst s0.
+  Proof.
+    induction rs as [|r rs IH]; intros Hin acc Ha; [exact Ha|]. cbn. apply IH.
+    - intros x Hx. apply Hin. now right.
+    - unfold apply_read. destruct (guard_holds (rguard r) s0); [|exact Ha].
+      rewrite keys_set_present; [exact Ha|]. rewrite Ha. apply Hin. now left.
+  Qed.
+
+  Lemma fold_lookup k rs : NoDup (map rfield rs) -> forall acc,
+    lookup k (fold_left apply_read rs acc)
+    = match find (fun r => guard_holds (rguard r) s0 && String.eqb (rfield r) k) rs with
+      | Some r => Some (target r)
+      | None => lookup k acc
+      end.
+  Proof.
+    induction rs as [|r rs IH]; intros Hn acc; [reflexivity|].
+    inversion Hn as [|? ? Hnot Hn']; subst. cbn [fold_left find]. rewrite (IH Hn').
+    unfold apply_read.
+    destruct (guard_holds (rguard r) s0) eqn:Eg; cbn [andb].
+    - destruct (String.eqb (rfield r) k) eqn:Ek.
+      + apply String.eqb_eq in Ek. subst k.
+        destruct (find (fun r1 => guard_holds (rguard r1) s0 && String.eqb (rfield r1) (rfield r)) rs) eqn:Ef.
+        * exfalso. apply find_some in Ef as [Hin Hx]. apply andb_true_iff in Hx as [_ Hx].
+          apply String.eqb_eq in Hx. apply Hnot. rewrite <- Hx. now apply in_map.
+        * apply lookup_set_same.
+      + destruct (find _ rs); [reflexivity|]. apply lookup_set_other. intro H. subst. now rewrite String.eqb_refl in Ek.
+    - reflexivity.
+  Qed.
+
+  (* THE round-trip statement for one object *)
+  Theorem flat_roundtrip :
+    exists d d', state_dict csave t s = Some d /\ json_rt d = Some d'
+                 /\ load_state_dict crestore t s0 d' = Some (map (fun p => (fst p, norm (snd p))) s)
+                 /\ (forall i, In (mkW "id" "id" WId None) (writes t) -> lookup "id" s = Some (PStr i) ->
+                                dict_id d' = Some i).
+  Proof.
+    destruct (entries_exist (active_writes t s)) as [E' HE].
+    { intros w Hw. unfold active_writes in Hw. now apply filter_In in Hw as [Hw _]. }
+    { intros w Hw. unfold active_writes in Hw. now apply filter_In in Hw as [_ Hw]. }
+    destruct (entries_state_dict _ _ HE) as [E [HE1 HE2]].
+    exists (PDict E), (PDict (map (fun q => (KStr (fst q), snd q)) E')).
+    split; [unfold state_dict; now rewrite Hdeleg, HE1|]. split; [|split].
+    - apply json_rt_dict_rel; [exact HE2|].
+      assert (lookup "type" E' = None) as ->; [|reflexivity].
+      destruct (lookup "type" E') eqn:El; [|reflexivity]. exfalso. apply lookup_in_keys in El.
+      rewrite (entries_keys _ _ HE) in El. apply Hnotype.
+      apply in_map_iff in El as [w [Hw1 Hw2]]. unfold active_writes in Hw2. apply filter_In in Hw2 as [Hw2 _].
+      rewrite <- Hw1. now apply in_map.
+    - unfold load_state_dict. rewrite Hdeleg. rewrite (read_steps E' HE (reads t) (incl_refl _) s0). f_equal.
+      assert (Hrf : forall r, In r (reads t) -> In (rfield r) (map fst s0)).
+      { intros r Hr. destruct (read_facts r Hr) as [w [Hw [_ [Hf _]]]]. rewrite wf_fields0, wf_fields, <- Hf. now apply in_map. }
+      apply assoc_ext.
+      + rewrite (fold_keys (reads t) Hrf s0 eq_refl), wf_fields0, map_map. reflexivity.
+      + rewrite (fold_keys (reads t) Hrf s0 eq_refl), wf_fields0, wf_fields. exact Hnd_wfield.
+      + intros k Hk. rewrite (fold_keys (reads t) Hrf s0 eq_refl), wf_fields0, wf_fields in Hk.
+        apply in_map_iff in Hk as [w [Hwk Hw]]. subst k.
+        destruct (field_value w Hw) as [v Hv].
+        rewrite (fold_lookup (wfield w) (reads t) Hnd_rfield s0), lookup_map_snd, Hv. cbn [option_map].
+        destruct (find (fun r => guard_holds (rguard r) s0 && String.eqb (rfield r) (wfield w)) (reads t)) as [r|] eqn:Ef.
+        * apply find_some in Ef as [Hr Hx]. apply andb_true_iff in Hx as [_ Hx]. apply String.eqb_eq in Hx.
+          unfold target. now rewrite Hx, Hv.
+        * apply (wf_fixed w v Hw Hv). intros r Hr Hk.
+          destruct (guard_holds (rguard r) s0) eqn:Eg; [|reflexivity]. exfalso.
+          destruct (read_facts r Hr) as [w' [Hw' [Hk' [Hf' _]]]].
+          assert (w' = w) as ->.
+          { pose proof (find_w_nodup (writes t) w' Hnd_wkey Hw') as F1.
+            pose proof (find_w_nodup (writes t) w Hnd_wkey Hw) as F2. rewrite Hk', Hk in F1. congruence. }
+          pose proof (find_none _ _ Ef r Hr) as Hx. cbn -[String.eqb] in Hx. rewrite Eg, <- Hf', String.eqb_refl in Hx. discriminate.
+    - intros i Hw Hi. unfold dict_id. rewrite lookupk_kstr.
+      destruct (lookup_entry (active_writes t s) E' (mkW "id" "id" WId None) HE) as [q [Hq1 [_ [v [e [Hv [He [Hj _]]]]]]]].
+      { unfold active_writes. now apply NoDup_map_filter. }
+      { now apply write_in_active. }
+      cbn [wkey wfield wm wenc] in *. rewrite Hq1. rewrite Hi in Hv. injection Hv as <-. injection He as <-.
+      cbn in Hj. injection Hj as <-. reflexivity.
+  Qed.
+End FlatRT.
+
+(* ------------------------------------------------------------------ a class that delegates to a torch object *)
+Lemma deleg_roundtrip csave crestore t d v v0 :
+  deleg t = Some d -> keys_ok t = true ->
+  ext_okb (ext_int_key_paths (dkind d)) v = true ->
+  exists x x', state_dict csave t [(dfield d, v)] = Some x /\ json_rt x = Some x'
+               /\ load_state_dict crestore t [(dfield d, v0)] x' = Some [(dfield d, norm v)].
+Proof.
+  intros Hd Hk Hv. unfold keys_ok in Hk. rewrite Hd in Hk. unfold deleg_ok in Hk.
+  destruct (writes t); [|discriminate]. destruct (reads t); [|discriminate].
+  apply andb_true_iff in Hk as [Hs _].
+  destruct (rekey_roundtrip_l _ (dfix d) v (same_set_mem _ _ Hs) Hv) as [v' [H1 H2]].
+  exists v, v'. unfold state_dict, load_state_dict. rewrite Hd. cbn [lookup set_field option_map].
+  rewrite H2. cbn [option_map]. rewrite (String.eqb_refl (dfield d)). auto.
+Qed.
+
+(* ------------------------------------------------------------------ whole object trees *)
+(* the object carries its id under "id" and its class writes it as the identity entry *)
+Definition idcond (T : list ctable) (o0 o : pv) : Prop :=
+  exists c fs0 fs t i, o0 = PObj c fs0 /\ o = PObj c fs /\ find_table c T = Some t
+    /\ In (mkW "id" "id" WId None) (writes t) /\ deleg t = None
+    /\ lookup "id" fs = Some (PStr i) /\ lookup "id" fs0 = Some (PStr i).
+
+(* o = the object whose state is saved, o0 = the object the restart has constructed from the same
+   specification; n bounds the nesting depth *)
+Fixpoint WF (n : nat) (T : list ctable) (o0 o : pv) : Prop :=
+  match n with
+  | O => False
+  | S n' =>
+      exists c fs0 fs t, o0 = PObj c fs0 /\ o = PObj c fs /\ find_table c T = Some t /\
+        match deleg t with
+        | Some d => exists v v0, fs = [(dfield d, v)] /\ fs0 = [(dfield d, v0)]
+                                 /\ ext_okb (ext_int_key_paths (dkind d)) v = true
+        | None =>
+            map fst fs = map wfield (writes t) /\ map fst fs0 = map fst fs
+            /\ (forall w, In w (writes t) -> guard_holds (wguard w) fs0 = guard_holds (wguard w) fs)
+            /\ (forall w r v, In w (writes t) -> In r (reads t) -> rkey r = wkey w ->
+                  guard_holds (rguard r) fs0 = true -> lookup (wfield w) fs = Some v ->
+                  value_ok (WF n' T) (fun c0 c => WF n' T c0 c /\ idcond T c0 c) fs0 w r v)
+            /\ (forall w v, In w (writes t) -> lookup (wfield w) fs = Some v ->
+                  (forall r, In r (reads t) -> rkey r = wkey w -> guard_holds (rguard r) fs0 = false) ->
+                  lookup (wfield w) fs0 = Some (norm v)
+                  /\ (guard_holds (wguard w) fs = true ->
+                      (is_wid (wm w) = true /\ plainb v = true) \/ (wm w = WChildren /\ v = PList [])))
+        end
+  end.
+
+Lemma norm_obj c fs : norm (PObj c fs) = PObj c (map (fun p => (fst p, norm (snd p))) fs).
+Proof. cbn. f_equal. apply map_ext. now intros [f x]. Qed.
+
+Theorem tree_roundtrip T : (forall t, In t T -> keys_ok t = true) ->
+  forall n o0 o, WF n T o0 o ->
+  exists d d', save n T o = Some d /\ json_rt d = Some d' /\ restore n T o0 d' = Some (norm o)
+               /\ (idcond T o0 o -> dict_id d' = obj_id o0).
+Proof.
+  intros HT. induction n as [|n IH]; intros o0 o H; [contradiction|].
+  destruct H as [c [fs0 [fs [t [-> [-> [Ht H]]]]]]].
+  assert (Hk : keys_ok t = true).
+  { apply HT. unfold find_table in Ht. now apply find_some in Ht as [Ht _]. }
+  cbn [save restore]. rewrite Ht.
+  destruct (deleg t) as [d|] eqn:Hd.
+  - destruct H as [v [v0 [-> [-> Hv]]]].
+    destruct (deleg_roundtrip (save n T) (restore n T) t d v v0 Hd Hk Hv) as [x [x' [H1 [H2 H3]]]].
+    exists x, x'. repeat split; auto.
+    + rewrite H3. cbn. reflexivity.
+    + intros [c' [fs0' [fs' [t' [i [E1 [E2 [Ht' [_ [Hd' _]]]]]]]]]]. injection E1 as <- <-. congruence.
+  - destruct H as [H1 [H2 [H3 [H4 H5]]]].
+    destruct (flat_roundtrip (save n T) (restore n T) t fs0 fs Hd Hk H1 H2 H3) as [d [d' [Ha [Hb [Hc Hi]]]]].
+    + intros w r v Hw Hr Hkey Hg Hv. eapply value_ok_mono; [| |exact (H4 w r v Hw Hr Hkey Hg Hv)].
+      * intros a b Hab. destruct (IH a b Hab) as [x [x' [X1 [X2 [X3 _]]]]]. exists x, x'. auto.
+      * intros a b [Hab Hid]. destruct (IH a b Hab) as [x [x' [X1 [X2 [X3 X4]]]]]. exists x, x'. auto.
+    + intros w v Hw Hv Hno. destruct (H5 w v Hw Hv Hno) as [Hx Hy]. split; [exact Hx|].
+      intros Hg. destruct (Hy Hg) as [[Hwid Hp]|[Hm ->]].
+      * exists v, (norm v). split; [|now apply json_rt_plain_l]. destruct (wm w); try discriminate. reflexivity.
+      * exists (PList []), (PList []). rewrite Hm. split; reflexivity.
+    + exists d, d'. repeat split; auto.
+      * rewrite Hc. cbn [option_map]. now rewrite norm_obj.
+      * intros [c' [fs0' [fs' [t' [i [E1 [E2 [Ht' [Hw [_ [Hl Hl0]]]]]]]]]]].
+        injection E1 as <- <-. injection E2 as <-. rewrite Ht in Ht'. injection Ht' as <-.
+        rewrite (Hi i Hw Hl). cbn. now rewrite Hl0.
+Qed.
+
+(* ------------------------------------------------------------------ run loops *)
+Section RunProofs.
+  Variable St : Type.
+  Variable step : St -> St.
+
+  Lemma trace_app a b e s :
+    trace St step (a + b) e s = trace St step a e s ++ trace St step b (e + a) (iter St step a s).
+  Proof.
+    revert e s. induction a as [|a IH]; intros e s; cbn.
+    - now rewrite Nat.add_0_r.
+    - f_equal. rewrite IH. f_equal. f_equal. lia.
+  Qed.
+
+  Lemma trace_length n e s : List.length (trace St step n e s) = n.
+  Proof. revert e s. induction n as [|n IH]; intros; cbn; auto. Qed.
+
+  (* The uninterrupted run splits at any iteration N <= total into the first N iterations and the
+     run that starts with counter N+1 from the state reached after N iterations. *)
+  Lemma full_run_split total N s0 : N <= total ->
+    full_run St step total s0
+    = firstn N (full_run St step total s0) ++ resumed_run St step total (S N) (iter St step N s0).
+  Proof.
+    intros H. unfold full_run, resumed_run.
+    replace total with (N + (total - N)) at 1 2 by lia. rewrite trace_app.
+    rewrite firstn_app, trace_length, Nat.sub_diag, firstn_O, app_nil_r.
+    rewrite firstn_all2 by (rewrite trace_length; lia).
+    reflexivity.
+  Qed.
+
+  (* resuming with the counter and the state the checkpoint should hold continues the same run *)
+  Theorem resume_same_trajectory_l (save_restore : St -> option St) total N s0 epoch restored :
+    (forall s, save_restore s = Some s) ->             (* the round-trip theorems *)
+    N <= total ->
+    save_restore (iter St step N s0) = Some restored ->
+    epoch = S N ->                                     (* loop_ok, see resume_epoch_ok *)
+    resumed_run St step total epoch restored = skipn N (full_run St step total s0)
+    /\ List.length (resumed_run St step total epoch restored) = total - N.
+  Proof.
+    intros Hrt HN Hs ->. rewrite Hrt in Hs. injection Hs as <-.
+    split.
+    - rewrite (full_run_split total N s0 HN) at 1.
+      assert (Hl : List.length (firstn N (full_run St step total s0)) = N).
+      { rewrite firstn_length. unfold full_run. rewrite trace_length. lia. }
+      rewrite skipn_app, Hl, Nat.sub_diag, skipn_O.
+      rewrite skipn_all2 by lia. reflexivity.
+    - unfold resumed_run. rewrite trace_length. lia.
+  Qed.
+
+  (* ... and with the counter the current loops restore (N itself) it does not: one iteration more *)
+  Lemma resume_off_by_one_l total N s : N <= total -> 1 <= N ->
+    List.length (resumed_run St step total N s) = S (total - N).
+  Proof. intros. unfold resumed_run. rewrite trace_length. lia. Qed.
+End RunProofs.
+
+Lemma resume_epoch_ok L N : loop_ok L = true -> resume_epoch L N = (N + 1)%Z.
+Proof.
+  unfold loop_ok, resume_epoch. intros H. apply Z.eqb_eq in H. destruct (incr_before_save L); lia.
+Qed.
+
+(* ------------------------------------------------------------------ parameters *)
+Lemma restored_dtype_ok kept copied spec inferred saved :
+  mem "dtype" copied = true -> restored_dtype kept copied spec inferred saved = saved.
+Proof. unfold restored_dtype. now intros ->. Qed.
+
+Lemma restored_nn_ok kept copied spec saved :
+  mem "nn" copied = true -> restored_nn kept copied spec saved = saved.
+Proof. unfold restored_nn. now intros ->. Qed.
+
+(* what holds of the code as it is: the dtype survives when the specification states it, or when
+   torch.tensor infers the saved one from the values *)
+Lemma restored_dtype_weak kept copied spec inferred saved :
+  mem "dtype" kept = true -> (spec = Some saved \/ (spec = None /\ inferred = saved)) ->
+  restored_dtype kept copied spec inferred saved = saved.
+Proof.
+  unfold restored_dtype. intros Hk [->|[-> ->]]; destruct (mem "dtype" copied); auto. now rewrite Hk.
+Qed.
